@@ -764,7 +764,9 @@ func (fc *fileCtx) inlineAt(s ast.Stmt, call *ast.CallExpr, callee *types.Func, 
 	}
 	_, isDefer := s.(*ast.DeferStmt)
 	_, isGo := s.(*ast.GoStmt)
-	if why := bodyObstacle(fd, info, callee); why != "" && !((isDefer || isGo) && why == "helper uses defer") {
+	// (a deferred helper becomes the body of a deferred function literal: its own defers, and a
+	// recover() it calls directly, keep their meaning there)
+	if why := bodyObstacle(fd, info, callee); why != "" && !((isDefer || isGo) && why == "helper uses defer") && !(isDefer && why == "helper uses recover") {
 		return why
 	}
 	// the statement must start its line and end its line (we splice whole lines)
